@@ -43,6 +43,14 @@ pub struct C14Scenario {
     pub phase_d: Vec<Kind>,
     pub last: Kind,
     pub rand_seed: u64,
+    /// the held child of a `run` holder itself invokes this API on the same repository (a command
+    /// calling back into monorail): it must be refused like any other contender
+    #[serde(default)]
+    pub nested: Option<Kind>,
+    /// the contenders of phase D get a slow listen(): the window between their bind() and listen() is
+    /// widened the way a loaded machine would
+    #[serde(default)]
+    pub listen_delay_us: Option<u32>,
 }
 
 pub struct C14;
@@ -83,6 +91,8 @@ fn gen_c14(seed: u64, idx: usize, _tier: Tier) -> C14Scenario {
         phase_d: (0..nd).map(|_| *rng.pick(&kinds)).collect(),
         last: *rng.pick(&kinds),
         rand_seed: rng.next_u64() % 1_000_000,
+        nested: if hold_at_child && rng.chance(1, 2) { Some(*rng.pick(&kinds)) } else { None },
+        listen_delay_us: if rng.chance(1, 3) { Some(*rng.pick(&[2_000u32, 20_000, 100_000])) } else { None },
     }
 }
 
@@ -194,6 +204,34 @@ fn exec_c14(sc: &C14Scenario) -> Outcome {
             _ => return Outcome::skip("holder run started no child(other property)"),
         }
         out.trace.push("A: holder released past the lock, held at its first child".into());
+    }
+    if let (Some(k), Some(conn)) = (sc.nested, held_child) {
+        let mut argv: Vec<Vec<u8>> = vec![crate::world::bin_dir().join("monorail").to_string_lossy().as_bytes().to_vec(), b"-f".to_vec(), w.root.join("Monorail.json").to_string_lossy().as_bytes().to_vec()];
+        argv.extend(kind_args(k, &sc.spec).into_iter().map(|a| a.into_bytes()));
+        let line = format!("RUN {}\n", argv.iter().map(|a| crate::proto::hex(a)).collect::<Vec<_>>().join(" "));
+        let ctl = w.ctl.as_mut().unwrap();
+        ctl.send(conn, &line);
+        out.fault("nested_invocation_from_a_running_command", 1);
+        match ctl.wait_for(|e| matches!(e, Ev::Line { conn: c, .. } if *c == conn) || matches!(e, Ev::Point(p) if p.actor == a0 && p.name == "cli.lock.acquired") || matches!(e, Ev::Hello(h) if h.actor == a0), hang) {
+            Some(Ev::Line { line, .. }) => {
+                let f: Vec<&str> = line.split(' ').collect();
+                let code: i32 = f.get(1).and_then(|x| x.parse().ok()).unwrap_or(-1);
+                let err = crate::proto::unhex_str(f.get(2).unwrap_or(&"-"));
+                if f.first() != Some(&"DONE") || code == 0 || !err.contains("Lock") {
+                    out.violate("loser_exit", "nested_invocation_not_refused", format!("a command of the running `run` invoked {:?} on the same repository; it ended with {:?} (exit {}) instead of a lock error: {}", k, f.first(), code, err.trim()));
+                    return out;
+                }
+            }
+            Some(Ev::Point(_)) | Some(Ev::Hello(_)) => {
+                out.violate("overlap", "nested_invocation_past_the_lock", format!("a command of the running `run` invoked {:?} on the same repository and it got past lock acquisition while its parent holds the lock", k));
+                return out;
+            }
+            _ => {
+                out.violate("loser_exit", "hung", format!("nested {:?} neither failed nor acquired", k));
+                return out;
+            }
+        }
+        out.trace.push(format!("A': nested {:?} started by the holder's own child was refused with a lock error", k));
     }
     let s1 = snap(&w, sc.hold_at_child);
     // ---- phase B: contenders started while the holder is past the lock
@@ -335,9 +373,16 @@ fn exec_c14(sc: &C14Scenario) -> Outcome {
     // ---- phase D: several contenders started the instant after the holder was reaped
     let s3 = snap(&w, false);
     let mut ds = vec![];
+    let denv: Vec<(String, String)> = match sc.listen_delay_us {
+        Some(us) => {
+            out.fault("slow_listen_widening_the_bind_listen_window", 1);
+            vec![("LD_PRELOAD".to_string(), crate::world::shim_path().to_string_lossy().into_owned()), ("FSFAULT_LISTEN_DELAY_US".to_string(), us.to_string())]
+        }
+        None => vec![],
+    };
     for k in &sc.phase_d {
         let a = next_actor();
-        match w.start_m(&a, &kind_args(*k, &sc.spec), points, &[]) {
+        match w.start_m(&a, &kind_args(*k, &sc.spec), points, &denv) {
             Ok(p) => ds.push((a, p, *k)),
             Err(e) => return Outcome::skip(&format!("start: {}", e)),
         }
@@ -412,7 +457,7 @@ fn exec_c14(sc: &C14Scenario) -> Outcome {
     kinds.sort();
     kinds.dedup();
     out.nontrivial = sc.phase_b.len() + sc.phase_d.len() + 2 >= 3 && kinds.len() >= 2 && sc.first_end != End::Go;
-    out.signature = format!("{:?}|{}|{:?}|{:?}|{:?}|{:?}|{:?}", sc.first, sc.hold_at_child, sc.first_end, sc.phase_b, sc.late, sc.phase_d, sc.last);
+    out.signature = format!("{:?}|{}|{:?}|{:?}|{:?}|{:?}|{:?}", sc.first, sc.hold_at_child, sc.first_end, sc.phase_b, sc.late, sc.phase_d, sc.last) + &format!("|{:?}|{:?}", sc.nested, sc.listen_delay_us);
     out.steps = (sc.phase_b.len() + sc.phase_d.len() + 2) as u64;
     out
 }
